@@ -149,7 +149,7 @@ def replay_graph(ctx, name, g, profiles, acc, stats, walks, walk_len, consumer_n
             st['walk_states_seen'] = max(st['walk_states_seen'], r['states_seen'])
     if st['edge_steps'] != g.edge_count * len(profiles):
         raise RuntimeError('%s: %d transitions executed, graph has %d x %d profiles' % (name, st['edge_steps'], g.edge_count, len(profiles)))
-    missing = [a for a in fx.MUTATORS if not st['actions'].get(a)]
+    missing = [a for a in fx.MUTATORS + ('Del:KeyError',) if not st['actions'].get(a)]
     if missing:
         raise RuntimeError('%s: actions never taken in the replay: %s' % (name, missing))
     for k in ('bounded', 'unbounded', 'bounded_prefix_absent', 'no_answer'):
@@ -267,6 +267,9 @@ def run(ctx):
                      consumer_n=(40 if q else 10 ** 9) if n == '3x3' else 0)
         nt += nontrivial(g) * len(profs)
         ctx.notes.append('replay of %s: %.1fs' % (n, time.time() - t1))
+        if n != '3x3':
+            fx._G.pop(n, None)
+            graphs[n] = None
     ends = fx.make_profile('ends', 3, 3, 1, 3, ctx.seed)
     cexs = counterexamples(ctx, graphs['3x3'], cex, ends)
     report(ctx, acc)
